@@ -135,6 +135,18 @@ any_ptr! { 'gc;
     CopySwh => Gc<'gc, SliceWithHeader<CopyHead<'gc>, Edge<'gc>>, KFat<HP>>, GcWeak<'gc, SliceWithHeader<CopyHead<'gc>, Edge<'gc>>, KFat<HP>>,
     // a Node allocated with per-type metadata, in the kind it was allocated with
     NodeM => Gc<'gc, RefLock<NodeBody<'gc>>, KNodeM>, GcWeak<'gc, RefLock<NodeBody<'gc>>, KNodeM>,
+    // a RefLock whose write guard the client may leak
+    Leaky => Gc<'gc, RefLock<LeakyBody<'gc>>>, GcWeak<'gc, RefLock<LeakyBody<'gc>>>,
+}
+
+/// Behind a RefLock whose write guard may be leaked by the client (safe code): the harness only
+/// ever looks inside with `try_borrow`.
+#[derive(Collect)]
+#[collect(no_drop)]
+pub struct LeakyBody<'gc> {
+    pub id: Id,
+    pub tok: Tok,
+    pub e: Edge<'gc>,
 }
 
 /// The trait Node pointers are unsized to.
